@@ -19,10 +19,25 @@ use helpers::{push, Env, Fut, CALL, LOG};
 struct V<'a>(&'a mut Vec<Value>);
 impl Visit for V<'_> {
     fn record_debug(&mut self, f: &Field, v: &dyn std::fmt::Debug) {
-        self.0.push(json!({"name": f.name(), "v": format!("{:?}", v)}));
+        self.0.push(json!({"name": f.name(), "v": format!("{:?}", v), "m": "debug"}));
     }
     fn record_str(&mut self, f: &Field, v: &str) {
-        self.0.push(json!({"name": f.name(), "v": v}));
+        self.0.push(json!({"name": f.name(), "v": v, "m": "str"}));
+    }
+    fn record_u64(&mut self, f: &Field, v: u64) {
+        self.0.push(json!({"name": f.name(), "v": v.to_string(), "m": "u64"}));
+    }
+    fn record_i64(&mut self, f: &Field, v: i64) {
+        self.0.push(json!({"name": f.name(), "v": v.to_string(), "m": "i64"}));
+    }
+    fn record_bool(&mut self, f: &Field, v: bool) {
+        self.0.push(json!({"name": f.name(), "v": v.to_string(), "m": "bool"}));
+    }
+    fn record_f64(&mut self, f: &Field, v: f64) {
+        self.0.push(json!({"name": f.name(), "v": format!("{:?}", v), "m": "f64"}));
+    }
+    fn record_error(&mut self, f: &Field, v: &(dyn std::error::Error + 'static)) {
+        self.0.push(json!({"name": f.name(), "v": format!("{}", v), "m": "error"}));
     }
 }
 
